@@ -8,12 +8,15 @@ import SieveModel.Model.FilterSet
 import SieveModel.Spec.Rfc5804
 import SieveModel.Model.Safety
 import SieveModel.Model.ToList
+import SieveModel.Model.Factory
 /-! Line-protocol driver: one request per line on stdin, one answer per line on stdout. -/
 
 structure DState where
   table : Table := Generated.builtinTable
   client : Client := { r := { buf := [], net := { stream := [], sched := [] } } }
   fs : FS := []
+  matchExt : List (Bytes × Bytes) := []
+  argExt : List (Bytes × Bytes) := []
 
 def kv (fs : List String) (k : String) : String := TableCodec.field fs k
 def kvBytes (fs : List String) (k : String) : Bytes :=
@@ -90,6 +93,37 @@ def fsOp (st : DState) (args : List String) : DState × String :=
     (st, s!"res={r} state={showFS st.fs}")
   | _ => (st, "bad-fs-op")
 
+/-! factory construction: `fcfg match=k:v,k:v arg=k:v,…` sets the two dictionaries; `fb gl=… reqs=… mt=… conds=… acts=…` builds one filter -/
+def hexB (h : String) : Bytes := if h == "e" || h == "-" || h == "" then [] else B.ofHex h
+def hexList (v : String) : List Bytes := if v == "-" || v == "" then [] else (v.splitOn ",").map hexB
+def pairList (v : String) : List (Bytes × Bytes) :=
+  if v == "-" || v == "" then [] else (v.splitOn ",").map (fun kv => match kv.splitOn ":" with
+    | [k, x] => (hexB k, hexB x)
+    | _ => ([], []))
+/-- one item: `s<hex>` | `n<dec>` | `l<hex>+<hex>…` (`l` alone: empty list) -/
+def valOf (t : String) : Factory.Val :=
+  let body := (t.drop 1).toString
+  if t.startsWith "n" then .n body.toNat!
+  else if t.startsWith "l" then .l (if body == "" then [] else (body.splitOn "+").map hexB)
+  else .s (hexB body)
+/-- tuples separated by `|`, items by `;`; `-` = no tuple -/
+def tuplesOf (v : String) : List (List Factory.Val) :=
+  if v == "-" || v == "" then [] else (v.splitOn "|").map (fun t => if t == "_" then [] else (t.splitOn ";").map valOf)
+def showFErr : Factory.Err → String
+  | .cmd (.badValue a) => s!"badValue {a}"
+  | .cmd (.badArgument c) => s!"badArgument {B.toHex c}"
+  | .cmd (.extNotLoaded e) => s!"extNotLoaded {B.toHex e}"
+  | .cmd (.crash _) => "crash"
+  | .parse e => Show.perr e
+  | .crash _ => "crash"
+  | .unmodelled => "unmodelled"
+def factoryOp (st : DState) (fs : List String) : String :=
+  let cfg : Factory.Cfg := { T := st.table, matchExt := st.matchExt, argExt := st.argExt, gl := hexList (kv fs "gl") }
+  let (reqs, r) := Factory.createFilter cfg (hexList (kv fs "reqs")) (tuplesOf (kv fs "conds")) (tuplesOf (kv fs "acts")) (hexB (kv fs "mt"))
+  "reqs=" ++ ",".intercalate (reqs.map hexOr) ++ " res=" ++ (match r with
+    | .ok n => "ok " ++ Show.node n
+    | .error e => "err " ++ showFErr e)
+
 def clientOp (st : DState) (fs : List String) : DState × String :=
   let c0 := st.client
   -- optional new server bytes / schedule for this operation
@@ -165,6 +199,8 @@ def answer (st : DState) (line : String) : DState × String :=
     match TableCodec.defOf fs with
     | some d => ({ st with table := st.table.register d }, "ok")
     | none => (st, "bad-def")
+  | "fcfg" :: fs => ({ st with matchExt := pairList (kv fs "match"), argExt := pairList (kv fs "arg") }, "ok")
+  | "fb" :: fs => (st, factoryOp st fs)
   | "c" :: fs => clientOp st fs
   | "fs" :: args => fsOp st args
   | _ => (st, "bad-request")
